@@ -16,7 +16,7 @@ LEVEL_TEXT = ("Explicit enumeration of `.if` programs (18 condition kinds: 0/1/2
               "expression, undefined name alone and inside an expression) x else present/absent x 9 then-bodies (incl. empty, a macro definition, a label used after the .if and a := override) x 5 else-bodies x 4 placements (top level, block, "
               "macro body, loop body) and `.for` programs (all bound pairs over {-2,0,1,3}^2, bounds from := constants, macro "
               "parameters and expressions) x 9 bodies (empty expansion, := shadowing inside the body, data over v, lda.b v, label + reference, nested loop over v*2+w, conditional, "
-              "macro call with v, mixed) x 3 placements x 3 nestings (plain, inside a conditional, inside another loop; thorough: bound pairs over 9 values). Each program is assembled by the real "
+              "macro call with v, mixed) x 3 placements x 3 nestings (plain, inside a conditional, inside another loop; thorough: bound pairs over 9 values), and every nesting tree with <=3 items (thorough <=4), depth <=3, over 7 leaves (byte, loop variable, two loop variables, label, reference to it, := accumulation, macro call with the variable) and 8 containers (taken .if, .else branch of a false .if, .if over an undefined name, 2-iteration loop, loop over a second variable, zero-iteration loop, block, macro application). Each program is assembled by the real "
               "assembler and compared with (a) the reference expansion and (b) its hand-expanded twin (selected branch spliced in; "
               "`{ v = k ... }` per iteration) run through the same assembler. Tests check one true, one false condition and one loop.")
 LEVEL_NOTE = ("Trusted: mc/ref/asm.py and the twin construction in this file. Conditions and bounds are expansion-time values "
@@ -35,7 +35,7 @@ ORG = 0x018000
 NN = ("macro", "nn", ["x"], [("data", "db", [S("x")])])
 MZ0 = ("macro", "mz", [], [("data", "db", [N(0xE0)])])
 CONSTS = [("const", "kc", N(1)), ("const", "k0", N(0)), ("const", "k2", N(2)), ("const", "kn", ("u", "-", N(1))),
-          ("const", "ka", N(1)), ("const", "kb", N(3)), ("const", "kq", N(1)), ("const", "acc", N(0)), ("const", "vv", N(0x5D))]
+          ("const", "ka", N(1)), ("const", "kb", N(3)), ("const", "kq", N(1)), ("const", "acc", N(0)), ("const", "vv", N(0x5D)), ("const", "ww", N(0x5E))]
 
 # condition kind -> (expression in the program, value, how it is supplied)
 COND = {
@@ -87,7 +87,8 @@ VALS_T = [-3, -2, -1, 0, 1, 2, 3, 5, 8]
 
 def bound(tier):
     return ("IF: 18 condition kinds x else on/off x 9 then x 5 else bodies x 4 placements; FOR: (16 literal bound pairs + 5 symbolic) x 9 "
-            "bodies x 3 placements x 3 nestings" + ("; bound pairs over {-3..3,5,8}^2; 8 two-level placements" if tier == "thorough" else ""))
+            "bodies x 3 placements x 3 nestings" + ("; bound pairs over {-3..3,5,8}^2; 8 two-level placements" if tier == "thorough" else "")
+            + f"; all directive nesting trees with <={4 if tier == 'thorough' else 3} items, depth <=3, over 7 leaves + 8 containers")
 
 
 def cases(tier, seed):
@@ -96,6 +97,16 @@ def cases(tier, seed):
         yield ("if", ck)
     for bk in FOR_BODIES:
         yield ("for", bk, tier)
+    # nesting trees of directives: all trees up to a size over TREE_LEAVES + TREE_CONTS
+    full_n = 4 if tier == "thorough" else 3
+    nsym = len(TREE_LEAVES) + len(TREE_CONTS)
+    for n in range(1, full_n + 1):
+        for fi in range(nsym):
+            if n >= 4:
+                for fj in range(nsym + 1):
+                    yield ("tree", n, fi, fj)
+            else:
+                yield ("tree", n, fi, None)
 
 
 def describe(case, res):
@@ -233,7 +244,7 @@ def outer_labels(labels):
     return sorted((n, v) for n, v in labels if n in ("pre", "post"))
 
 
-def run_pairs(gen, prefix):
+def run_pairs(gen, prefix, skip_unspec=False):
     bus = refbus.lorom()
     viol = []
     outcomes = set()
@@ -243,6 +254,9 @@ def run_pairs(gen, prefix):
         states += 1
         src = render.source(main)
         v = refasm.RefAsm(bus).assemble(main)
+        if skip_unspec and v.status == "unspec":
+            outcomes.add("unspecified-skipped")
+            continue
         out = impl.assemble(src, rom="low_rom")
         evals += 1
         key_tag = ",".join(str(x) for x in tag)
@@ -273,7 +287,125 @@ def run_pairs(gen, prefix):
             "violations": viol[:30], "example": example, "depth": 2}
 
 
+# ---- nesting trees -------------------------------------------------------------------------------------------
+TREE_LEAVES = ["db", "dbv", "dbw", "lbl", "ref", "acc", "call"]
+TREE_CONTS = ["IT", "IE", "IU", "F2", "FW", "F0", "B", "M"]
+TREE_DEPTH = 3
+
+
+def _seqs(n, d):
+    if n == 0:
+        yield ()
+        return
+    for lf in TREE_LEAVES:
+        for rest in _seqs(n - 1, d):
+            yield (lf,) + rest
+    if d > 0:
+        for inner_n in range(0, n):
+            for c in TREE_CONTS:
+                for inner in _seqs(inner_n, d - 1):
+                    for rest in _seqs(n - 1 - inner_n, d):
+                        yield ((c, inner),) + rest
+
+
+def _first_item(n, d, idx):
+    nl = len(TREE_LEAVES)
+    if idx < nl:
+        if n >= 1:
+            yield TREE_LEAVES[idx], 1
+    elif d > 0:
+        c = TREE_CONTS[idx - nl]
+        for inner_n in range(0, n):
+            for inner in _seqs(inner_n, d - 1):
+                yield (c, inner), 1 + inner_n
+
+
+def _with_first(n, d, idx):
+    for item, c in _first_item(n, d, idx):
+        for rest in _seqs(n - c, d):
+            yield (item,) + rest
+
+
+def trees_for(n, fi, fj):
+    if fj is None:
+        yield from _with_first(n, TREE_DEPTH, fi)
+        return
+    for item, c in _first_item(n, TREE_DEPTH, fi):
+        if fj == len(TREE_LEAVES) + len(TREE_CONTS):
+            if n - c == 0:
+                yield (item,)
+        else:
+            for rest in _with_first(n - c, TREE_DEPTH, fj):
+                yield (item,) + rest
+
+
+def tree_program(tree, twin):
+    """Abstract program of a directive tree; twin=True writes every directive out by hand."""
+    macros = [NN]
+
+    def conv(items):
+        out = []
+        for it in items:
+            if it == "db":
+                out.append(("data", "db", [N(0x11)]))
+            elif it == "dbv":
+                out.append(("data", "db", [S("vv")]))
+            elif it == "dbw":
+                out.append(("data", "db", [("b", "+", S("ww"), S("vv"))]))
+            elif it == "lbl":
+                out += [("label", "tl"), ("data", "db", [N(0x1F)])]
+            elif it == "ref":
+                out.append(("data", "dw", [S("tl")]))
+            elif it == "acc":
+                out += [("const", "acc", ("b", "+", S("acc"), N(1))), ("data", "db", [S("acc")])]
+            elif it == "call":
+                out.append(("call", "nn", [S("vv")]))
+            else:
+                k, inner = it
+                body = conv(inner)
+                if k == "IT":
+                    out += body if twin else [("if", S("kc"), body, None)]
+                elif k == "IE":
+                    out += body if twin else [("if", S("k0"), [("data", "db", [N(0x2F)])], body)]
+                elif k == "IU":
+                    out += [] if twin else [("if", S("nosuchname"), body, None)]
+                elif k in ("F2", "FW", "F0"):
+                    var, lo, hi = {"F2": ("vv", 0, 2), "FW": ("ww", 1, 3), "F0": ("vv", 1, 1)}[k]
+                    out += unroll(var, lo, hi, body) if twin else [("for", var, N(lo), N(hi), body)]
+                elif k == "B":
+                    out.append(("block", body))
+                elif k == "M":
+                    name = f"mt{len(macros)}"
+                    macros.append(("macro", name, [], body))
+                    out.append(("call", name, []))
+        return out
+
+    body = conv(tree)
+    return CONSTS + macros + skeleton(body, "top", macros)
+
+
+def _tree_kinds(tree, acc):
+    for it in tree:
+        if not isinstance(it, str):
+            acc.add(it[0])
+            _tree_kinds(it[1], acc)
+    return acc
+
+
+def tree_pairs(n, fi, fj):
+    for tree in trees_for(n, fi, fj):
+        kinds = _tree_kinds(tree, set())
+        if not kinds & {"IT", "IE", "IU", "F2", "FW", "F0"}:
+            continue  # no directive in the tree: nothing of this property to observe
+        tag = ("tree", "+".join(sorted(kinds)))
+        yield tree_program(tree, False), tree_program(tree, True), tag, True
+
+
 def run_case(case):
+    if case[0] == "tree":
+        r = run_pairs(tree_pairs(case[1], case[2], case[3]), "tree", skip_unspec=True)
+        r["depth"] = case[1]
+        return r
     if case[0] == "if":
         return run_pairs(if_programs(case[1]), "if")
     return run_pairs(for_programs(case[1], case[2]), "for")
